@@ -57,6 +57,9 @@ static inline struct vs_ostream *vs_os_crlf(struct vs_ostream *os) { vs_em(os, 0
 static inline struct vs_ostream *vs_os_cstr(struct vs_ostream *os, const char *p) { vs_em(os, 1, EM_CSTR, 0, p, 0, 0, 0); return os; }
 static inline struct vs_ostream *vs_os_write(struct vs_ostream *os, const char *p, long n) { vs_em(os, n == 0, EM_DATA, 0, p, 0, 0, (size_t)n); return os; }
 #define VS_OS_ANY(os, x) _Generic((x) + 0, int: vs_os_chr, char *: vs_os_cstr, const char *: vs_os_cstr)(os, x)
+/* codeString(code): the reason phrase registered for a status code -- empty for a code without one (contents unconstrained) */
+extern const char vs_reason_text[2];
+static inline const char *vs_code_string(int code) { (void)code; return vs_reason_text; }
 struct vs_hlist { size_t n; };
 size_t g_nheaders, g_ncookies;          /* ghost: how many typed headers / cookies the response carries */
 static inline struct vs_hlist vs_hlist_of(const void *collection) { struct vs_hlist l; (void)collection; l.n = g_nheaders; return l; }
@@ -158,6 +161,7 @@ STUBS = {
     'operator<<|std::ostream,int': {'expr': '(*vs_os_int(&($0), $1))'},
     'operator<<|std::ostream,unsigned long': {'expr': '(*vs_os_int(&($0), (long)($1)))'},
     'std::ostream::write': 'vs_os_write',
+    'Pistache::Http::codeString': 'vs_code_string',
     'operator<<|std::ostream,Pistache::Http::Version': {'expr': '(*vs_os_ver(&($0), $1))'}, 'operator<<|std::ostream,Pistache::Http::Code': {'expr': '(*vs_os_code(&($0), $1))'},
     'Pistache::Http::crlf': 'vs_os_crlf',
     # promises: only whether the result is the rejected one, and how often the transport was handed the buffer
